@@ -95,6 +95,12 @@ Pairs ==
   \cup { <<AnyC("list"), e>> : e \in ListE(D) } \cup { <<AnyC("set"), e>> : e \in ListE(1) } \cup { <<AnyC("map"), e>> : e \in MapE(D) }
   \cup { <<AnyC("object"), e>> : e \in ObjE(IF D > 1 THEN 1 ELSE D) } \cup { <<AnyC("tuple"), e>> : e \in TupE(1) }
   \cup { <<AnyC("dynamic"), e>> : e \in StrE(1) \cup ListE(1) \cup ObjE(1) }
+  \* operators under operators, at every depth setting: the operands of a comparison are numbers although its result is a bool
+  \cup { <<AnyC("bool"), e>> : e \in { Bin(">", Bin("+", LocN, Lit("number", "1")), LocN), Bin("==", Un("-", LocN), SelfPw),
+                                      Bin("&&", Bin(">", LocN, Un("-", LocN)), Un("!", LocB)), Bin("!=", Bin("+", LocN, LocN), Lit("number", "2")) } }
+  \cup { <<AnyC("string"), Cond(Bin(">", Bin("+", LocN, Lit("number", "1")), LocN), LocS, Lit("string", "y"))>>,
+         <<AnyC("number"), Cond(Bin("==", LocS, LocOK), Bin("+", LocN, Lit("number", "1")), Un("-", LocN))>>,
+         <<AnyC("number"), Cond(Un("!", LocB), Lit("number", "10"), Call("max", <<LocN, Lit("number", "2")>>))>> }
   \* a map whose elements are not strings: static and computed keys side by side
   \cup { <<AnyC("maplist"), Obj(<<It(IdK("a"), List(<<Lit("string", "c"), e>>)), It(LocS, List(<<Lit("string", "d"), Lit("string", "e")>>))>>)>> : e \in {LocS, Unk, Lit("string", "x")} }
   \cup { <<AnyC("maplist"), Obj(<<It(Lit("string", "q"), List(<<LocS>>)), It(StrK("b c"), List(<<>>))>>)>> }
